@@ -124,11 +124,14 @@ impl Vector3 {
     #[verifier::external_body]
     pub fn norm_squared(&self) -> (r: f64) ensures r == norm2_s(*self) { unimplemented!() }
     #[verifier::external_body]
+    pub fn try_normalize(&self, eps: f64) -> (r: Option<Vector3>) ensures r == try_normalize_s(*self, eps) { unimplemented!() }
+    #[verifier::external_body]
     pub fn zeros() -> (r: Vector3) ensures r.x == 0.0f64, r.y == 0.0f64, r.z == 0.0f64 { unimplemented!() }
     #[verifier::external_body]
     pub fn dot(&self, other: &Vector3) -> (r: f64) ensures r == dot_s(*self, *other) { unimplemented!() }
 }
 pub uninterp spec fn norm2_s(v: Vector3) -> f64;
+pub uninterp spec fn try_normalize_s(v: Vector3, eps: f64) -> Option<Vector3>;
 pub uninterp spec fn dot_s(a: Vector3, b: Vector3) -> f64;
 impl Translation3 {
     #[verifier::external_body]
